@@ -7,7 +7,7 @@ from props import c06_extract as T
 
 NSLOT, NOBJ, NVAR, NCALL, NSENT = 10, 4, 4, 4, 4
 LAYOUTS = [(1, 1), (1, 2), (2, 1), (3, 1)]      # replace_program() family: variables of the first / second inherit
-NEFUN = 72
+NEFUN = 89
 # groups that build a cycle while they run (an error injected in the middle legitimately leaves cyclic garbage) or
 # keep a call_out handle in a local (71: the injected error would leave the call_out pending)
 NO_FAULT = (13, 48, 71)
@@ -124,12 +124,13 @@ class Gen:
                    ("dest", 2), ("cleanup", 2), ("drop", 1), ("call", 5), ("rmcall", 2), ("sweep", 3), ("sent", 4),
                    ("rmsent", 2), ("rmcalln", 1), ("rmall", 1), ("newfun", 4), ("fill", 3), ("inp", 4), ("input", 3), ("deadcall", 3),
                    ("newobjr", 3), ("replace", 3)]
-        choices += [("newmstr", 4), ("sappend", 4), ("sjoin", 3), ("sadd", 3), ("schar", 4)]
+        choices += [("newmstr", 4), ("sappend", 4), ("sjoin", 3), ("sadd", 3), ("schar", 4), ("saddl", 2), ("sadd2", 3)]
         if m == "unit":
             choices += [("newstr", 6), ("push", 6), ("pushr", 3), ("pop", 6), ("popto", 3), ("oref", 3),
                         ("clones", 2), ("unclone", 2), ("unload", 1 if self.late else 0), ("reclaimu", 0 if self.cyclic else 3)]
         else:
-            choices += [("err", 4), ("efun", 12), ("srange", 4), ("rest", 8), ("resto", 2), ("fefun", 6), ("frest", 3), ("reclaim", 0 if self.cyclic else 3)]
+            choices += [("err", 4), ("efun", 12), ("srange", 4), ("rest", 8), ("resto", 2), ("fefun", 6), ("frest", 3), ("reclaim", 0 if self.cyclic else 3),
+                        ("arange", 8), ("arangev", 5), ("brange", 2)]
         k = r.weighted(choices)
         S = self.slots
         if k == "newarr":
@@ -142,8 +143,9 @@ class Gen:
             self.emit("%s %d" % (k, d))
         elif k == "newbuf":
             d = r.below(NSLOT)
-            S[d] = self.new("buf")
-            self.emit("newbuf %d %d" % (d, r.range(1, 9)))
+            n = r.range(1, 9)
+            S[d] = self.new("buf", n)
+            self.emit("newbuf %d %d" % (d, n))
         elif k in ("newstr", "newmstr"):
             d = r.below(NSLOT)
             S[d] = self.new("str", 5)
@@ -336,6 +338,13 @@ class Gen:
                 c.items = {i: S[t] for i in range(n)}
             S[d] = c
             self.emit("fill %d %d %d" % (d, n, t))
+        elif k in ("saddl", "sadd2"):
+            a = self.pick_slot(("str",))
+            t = self.pick_slot(("str",))
+            dd = r.below(NSLOT)
+            if S[a] is not None and S[a].kind == "str" and (k == "saddl" or (S[t] is not None and S[t].kind == "str")):
+                S[dd] = self.new("str", S[a].size + (1 if k == "saddl" else S[t].size))
+            self.emit("saddl %d %d %d" % (dd, a, r.range(1, 9)) if k == "saddl" else "sadd2 %d %d %d" % (dd, a, t))
         elif k in ("sappend", "sjoin", "sadd", "schar", "srange"):
             # strings are values: the target gets a new string, every other holder keeps its text
             d = self.pick_slot(("str",))
@@ -371,7 +380,7 @@ class Gen:
             ao = [o for o in self.alive_objs() if self.lay[o] is None and not self.robj[o]]
             o = r.choice(ao) if ao and r.chance(9, 10) else r.below(NOBJ)
             rearm = r.chance(1, 3)
-            if o in ao and not self.inp:
+            if o in ao and not self.inp:            # while one is pending the call is refused (and nothing is kept)
                 self.inp = (o, rearm)
             self.emit("%s %d %d %d" % ("inpr" if rearm else "inp", o, self.pick_slot(), self.pick_slot()))
         elif k == "input":
@@ -437,6 +446,52 @@ class Gen:
                 text = damage(text, r)
             if " " not in text and 0 < len(text) < 200 and not text.startswith("#"):
                 self.emit("%s %s" % (k, text))
+        elif k in ("arange", "arangev"):
+            # v[d][i .. i+len-1] = rhs: temporary / shared right-hand side, same / shorter / longer, statement / value form
+            d = self.pick_slot(("arr",))
+            c = S[d]
+            size = c.size if c is not None and c.kind == "arr" else 2
+            i = r.below(size + 1)
+            ln = r.below(size - i + 1)
+            if k == "arange":
+                t = self.pick_slot()
+                n = r.weighted([(max(1, ln), 4), (ln + 1, 2), (max(1, ln - 1), 2), (r.range(1, 4), 1)])
+                rhs = [S[t]] * n
+            else:
+                t = self.pick_slot(("arr",))
+                tc = S[t]
+                if tc is None or tc.kind != "arr" or t == d:
+                    self.emit("arangev %d %d %d %d %d" % (d, i, ln, t, r.below(2)))
+                    return
+                n = tc.size
+                rhs = [tc.items.get(q) for q in range(min(n, 16))] + [None] * max(0, n - 16)
+            if c is not None and c.kind == "arr":
+                if n == ln:
+                    if not all(self.can_hold(c, x) for x in rhs):
+                        return
+                    for q in range(n):
+                        c.items[i + q] = rhs[q]
+                else:
+                    nc = self.new("arr", size - ln + n)
+                    old = [c.items.get(q) for q in range(size)] if size <= 400 else []
+                    for q, x in enumerate(old[:i] + list(rhs) + old[i + ln:]):
+                        if x is not None:
+                            nc.items[q] = x
+                    S[d] = nc
+            if k == "arange":
+                self.emit("arange %d %d %d %d %d %d" % (d, i, ln, n, t, r.below(2)))
+            else:
+                self.emit("arangev %d %d %d %d %d" % (d, i, ln, t, r.below(2)))
+        elif k == "brange":
+            d = self.pick_slot(("buf",))
+            c = S[d]
+            size = c.size if c is not None and c.kind == "buf" else 4
+            i = r.below(size + 1)
+            ln = r.below(size - i + 1)
+            n = r.choice([max(1, ln), ln + 1, max(1, ln - 1)])
+            if c is not None and c.kind == "buf" and n != ln:
+                S[d] = self.new("buf", size - ln + n)
+            self.emit("brange %d %d %d %d" % (d, i, ln, n))
         elif k == "reclaimu":
             self.emit("reclaimu")
         elif k == "reclaim":
@@ -516,7 +571,7 @@ class C06(Prop):
                 "NV.C06.program_alive_while_referenced", "NV.C06.prog_ref_eq_holders", "NV.C06.unreferenced_is_deallocated",
                 "NV.C06.holders_eq_H", "NV.C06.run_DE", "NV.C06.oracle_ref_clause", "NV.C06.oracle_freed_clause", "NV.C06.oracle_leak_clause",
                 "NV.C06.oracle_string_clauses", "NV.C06.arrBytes_matches", "NV.C06.collect1_fix", "NV.C06.oracle_accepts_model_state",
-                "NV.C06.sweep_runs_every_pending_call_once",
+                "NV.C06.sweep_runs_every_pending_call_once", "NV.C06.sizes_exact", "NV.C06.join_on_copy_never_inplace", "NV.C06.wc_meaning", "NV.C06.run_w",
                 "NV.C06.widths_agree", "NV.C06.ref_eq_holders", "NV.C06.no_free_while_held",
                 "NV.C06.primitives_preserve_invariant", "NV.C06.string_never_freed_while_held", "NV.C06.string_cells_never_freed_while_held",
                 "NV.C06.string_saturates", "NV.C06.no_inplace_modification_while_shared", "NV.C06.extendInPlace_sole",
@@ -555,15 +610,16 @@ class C06(Prop):
                   "mapping nodes, string counters with saturation and the in-place decisions that read them, free_call / free_sentence / "
                   "dealloc_funp, destruct_object / destruct2, call_out() including callbacks that raise an error or destruct their "
                   "object, input_to / get_char, program_t.ref with clone / inherit / blueprint references (reference_prog, free_prog, "
-                  "deallocate_program), replace_programs(), reclaim_objects()) for all sequences of primitives: counter = number of holders, nothing "
-                  "freed while held, no dangling pointer anywhere, unreferenced values deallocated, statistics exact; tied to the "
+                  "deallocate_program), replace_programs(), reclaim_objects(), assignment to array / buffer range lvalues in both forms) for all sequences of primitives: counter = number of holders, nothing "
+                  "freed while held, no dangling pointer anywhere, unreferenced values deallocated, count and size statistics exact, the "
+                  "oracle's declarative collection step is the identity on every model state; tied to the "
                   "source by the regenerated widths, counter updates and holder sites and by running the real functions (unit style) "
                   "and the real interpreter (LPC style) and the model on the same generated histories with identical per-value "
                   "counters and driver statistics")
     level_note = ("PARTIAL: the theorems cover the counting primitives and conventions; that each of the ~250 efuns and "
-                  "~120 opcode cases follows the convention on every path is only observed (72 efun/operator groups: per-value "
+                  "~120 opcode cases follows the convention on every path is only observed (89 efun/operator groups: per-value "
                   "counters and statistics equal the model after every operation, also with an error injected at every "
-                  "instruction of 69 of them, counters back at the baseline, ASan), not proved.  The top statement "
+                  "instruction of 86 of them, counters back at the baseline, ASan), not proved.  The top statement "
                   "`judge (model trace) = []` is proved clause-wise only for the per-value comparisons (oracle_ref_clause, "
                   "oracle_freed_clause, oracle_leak_clause, oracle_string_clauses: on every model state the oracle's holder count equals "
                   "the counter / is 0 for freed values; oracle_accepts_model_state: the oracle's declarative collection step is the identity on "
@@ -581,8 +637,11 @@ class C06(Prop):
             "callbacks that raise an error or destruct their own object, clones / blueprint unloading / inherit references of "
             "programs, replace_program() over four variable layouts, reclaim_objects() with destructed objects in variables / arrays / "
             "classes / mapping keys and values / function pointer arguments, a callback that installs a new input_to, "
-            "destruct + deferred cleanup, errors thrown under live frames, 47 efun/operator groups with results dropped, an error "
-            "injected at the k-th instruction (or at every instruction in turn) of 69 efun groups and of restore_variable, "
+            "assignment to array / buffer range lvalues (temporary / shared right-hand side, same / other length, statement / value form), "
+            "input_to refused while one is pending, "
+            "destruct + deferred cleanup, errors thrown under live frames, 64 efun/operator groups with results dropped (every "
+            "lvalue-assignment form, operators and efuns taken from the opcode histogram), an error "
+            "injected at the k-th instruction (or at every instruction in turn) of 86 efun groups and of restore_variable, "
             "25 'value builder aborted half-way' groups (callbacks of map/filter/sort/unique/implode raising after k calls, "
             "aggregates and call_other arguments with a failing element, sprintf/sscanf/regexp/allocate errors, built-in "
             "sort refusing its input) and restore_variable / restore_object on valid and damaged save texts (every "
@@ -591,11 +650,13 @@ class C06(Prop):
             "cyclic containers; a case is non-trivial when it has >= 2 executed operations; distinct = distinct "
             "canonical implementation trace")
     not_covered = ["that every efun (~250) and every opcode case (~120) follows the ownership convention on every path, "
-                   "including every error path, is observed on the generated programs only (72 efun/operator groups, 69 of them "
-                   "with an error injected at every instruction), not proved; never called: shadow, command / this_player hooks, ed, sockets",
+                   "including every error path, is observed on the generated programs only (89 efun/operator groups, 86 of them "
+                   "with an error injected at every instruction), not proved; 70 of the 216 operator / one-argument-efun opcodes are never "
+                   "executed (integer arithmetic, unused encodings, simul_efun, stateful / user / file-system efuns: list in notes/C06.md)",
                    "the top statement judge (model trace) = [] is proved only clause-wise for the per-value comparisons on model states "
                    "(oracle_*_clause); the simulation between the counting machine and the declarative fixpoint machine of the oracle "
-                   "(same state after every operation) and the statistics clauses are not proved; the oracle is exercised on the model's "
+                   "(same state after every operation) is not proved, the statistics clauses only for num_arrays / num_mappings / "
+                   "tot_alloc_object / total_array_size / total_mapping_nodes (string and function-name counters are compared); the oracle is exercised on the model's "
                    "traces and on corrupted ones",
                    "func_ref of programs is not modelled as a counter (only its width is an obligation); swapping, load_binary "
                    "and total_num_prog_blocks are not modelled; replaceable() is not called",
@@ -805,18 +866,23 @@ class C06(Prop):
             mk("input_to-rearmed-" + mode, mode,
                ["newobj 1", "newarr 0 2", "newmap 1", "inpr 1 0 1", "free 0", "input", "inp 1 1 1", "free 1", "input", "input",
                 "newcls 2", "inpr 1 2 2", "dest 1", "free 2", "input", "input", "cleanup", "drop 1"])
+            # input_to while one is pending: refused, the sentence and function pointer made for it are released again
+            mk("input_to-refused-" + mode, mode,
+               ["newobj 1", "newobj 2", "newarr 0 2", "inp 1 0 0", "inp 2 0 0", "inpr 1 0 0", "inp 1 0 0", "free 0", "dest 2", "input", "inp 1 1 1",
+                "input", "dest 1", "cleanup", "drop 1", "drop 2"])
             mk("input_to-delivered-" + mode, mode,
                ["newobj 1", "newarr 0 2", "newfun 1 1 0", "inp 1 0 1", "inp 1 1 1", "free 0", "free 1", "input", "input",
                 "inp 1 0 0", "dest 1", "input", "cleanup", "drop 1"])
         for mode in ("unit", "lpc"):
             for name, last in (("65535", "fill 5 9533 0"), ("65536", "fill 5 9534 0"), ("70000", "fill 5 13998 0")):
                 head = ["newmstr 0 abc"] + big + [last, "assign 6 0"]      # holders = 2 + 56000 + n
-                mods = ["sappend 6 7", "assign 6 0", "sjoin 6 0", "sadd 7 0 5", "assign 8 0", "schar 8 0 z", "aget 9 1 0",
+                mods = ["sappend 6 7", "assign 6 0", "sjoin 6 0", "sadd 7 0 5", "saddl 7 0 4", "sadd2 7 0 0", "sadd2 7 6 0", "assign 8 0", "schar 8 0 z", "aget 9 1 0",
                         "assign 8 0", "schar 8 2 y"]
                 if mode == "lpc":
                     mods += ["assign 8 0", "srange 8 0 1 QQQ", "assign 8 0", "srange 8 1 2 RR", "aget 9 2 7"]
                 mk("string-%s-holders-modify-%s" % (name, mode), mode, head + mods + rel + ["free 6", "free 7", "free 8", "free 9"])
-            mk("string-values-" + mode, mode, ["newmstr 0 ab", "sappend 0 1", "assign 1 0", "sappend 1 2", "sjoin 0 1", "sjoin 1 1",
+            mk("string-values-" + mode, mode, ["newmstr 0 ab", "sappend 0 1", "assign 1 0", "sappend 1 2", "sjoin 0 1", "sjoin 1 1", "saddl 5 0 7",
+                                               "sadd2 5 0 1", "sadd2 0 0 0", "sadd2 1 5 1",
                                                "sadd 2 0 3", "schar 2 0 x", "assign 3 2", "schar 3 1 y", "newarr 4 2", "aset 4 0 3",
                                                "schar 3 0 w", "aget 5 4 0", "free 0", "free 1", "free 2", "free 3", "free 4", "free 5"])
             # arrays are references: one holder's element store is seen by all (sanity, 32-bit counters)
@@ -849,6 +915,27 @@ class C06(Prop):
         mk("reclaim-objects-lpc", "lpc", ["newobj 0", "newobj 1", "newobj 2", "newobjr 3 2", "newarr 0 2", "newmap 1", "setvar 1 0 0",
                                           "reclaim", "dest 0", "dest 3", "reclaim", "reclaim", "cleanup", "dest 2", "cleanup", "reclaim",
                                           "getvar 2 1 0", "dest 1", "reclaim", "cleanup", "free 0", "free 1", "free 2"])
+        # assignment to a range lvalue: statement / value form, temporary / shared right-hand side, same / shorter / longer /
+        # empty range / whole array / append, every replaced and every new element a counted value
+        rng_head = ["newarr 0 4", "newarr 1 2", "newmap 2", "newmstr 3 rg", "newcls 4", "aset 0 0 1", "aset 0 1 2", "aset 0 2 3", "aset 0 3 4",
+                    "assign 5 0", "newarr 6 2", "aset 6 0 2", "aset 6 1 3"]
+        rng_tail = ["free 0", "free 1", "free 2", "free 3", "free 4", "free 5", "free 6", "free 7"]
+        for f in (0, 1):
+            mk("range-lvalue-temporary-%s" % ("statement", "value")[f], "lpc", rng_head +
+               ["arange 0 0 2 2 1 %d" % f, "arange 0 1 2 2 2 %d" % f, "arange 0 2 2 1 3 %d" % f, "arange 0 0 1 3 4 %d" % f, "arange 0 2 0 2 1 %d" % f,
+                "arange 0 0 0 1 2 %d" % f, "assign 7 0", "arange 0 7 0 2 3 %d" % f, "arange 0 0 9 1 1 %d" % f, "arange 7 0 7 7 4 %d" % f,
+                "arange 5 1 2 2 6 %d" % f] + rng_tail)
+            mk("range-lvalue-shared-%s" % ("statement", "value")[f], "lpc", rng_head +
+               ["arangev 0 0 2 6 %d" % f, "arangev 0 2 2 6 %d" % f, "arangev 0 1 1 6 %d" % f, "arangev 0 0 3 6 %d" % f, "arangev 0 2 0 6 %d" % f,
+                "assign 7 0", "arangev 0 0 2 7 %d" % f, "arangev 0 1 0 7 %d" % f, "arangev 5 0 4 6 %d" % f, "arangev 6 0 1 5 %d" % f] + rng_tail)
+        # repaired defect: the array assigned to its own whole range (a[0..<1] = a) released every element that only the array
+        # held and then copied it (heap-use-after-free)
+        for f in (0, 1):
+            mk("range-lvalue-self-%s" % ("statement", "value")[f], "lpc",
+               ["newarr 0 2", "newarr 1 1", "newmap 2", "aset 0 0 1", "aset 0 1 2", "free 1", "free 2", "assign 6 0", "arangev 0 0 2 6 %d" % f,
+                "aget 7 0 0", "aget 8 6 1", "arangev 6 0 2 0 %d" % f, "arangev 0 0 1 6 %d" % f, "free 0", "free 6", "free 7", "free 8"])
+        mk("range-lvalue-buffer", "lpc", ["newbuf 0 6", "assign 1 0", "brange 0 0 2 2", "brange 0 1 2 1", "brange 0 5 0 3", "brange 1 0 6 1",
+                                          "brange 0 0 8 8", "free 0", "free 1"])
         mk("errors-lpc", "lpc", ["newarr 0 2", "newmap 1", "newobj 0", "mset 1 0 0", "err 0 1", "efun 10 0 1",
                                  "efun 11 0 1", "err 1 0", "free 0", "free 1", "dest 0", "cleanup", "drop 0"])
         # repaired defects: copy() beyond the nesting limit leaked the partial copy; copy() of a class miscounted arrays
